@@ -141,7 +141,7 @@ func c14Emits(p *core.Program, fn *ssa.Function) []c14Emit {
 		lastHdr = hdr
 		var ds []string
 		for _, g := range path.Guards(fn, b) {
-			ib := g.If.Block()
+			ib := g.Block()
 			if hdr == nil || ib == hdr || !hdr.Dominates(ib) {
 				continue
 			}
